@@ -258,8 +258,28 @@ def payload_case(args):
             except pexpect.TIMEOUT:
                 pass
         plan = [(bytes.fromhex(o), bytes.fromhex(k)) for o, k in cfg['plan']]
+        if cfg.get('dead_at_entry'):
+            # the child has ended (and pexpect knows) before interact() is called: the pending output is still the user's
+            state['to_child'] += drain(w.slave, 0)
+            w.peer('PeerExit', [0])
+            state['exited'] = state['ended'] = True
+            child.wait()
+            plan = []
         all_out = b''.join(o for o, k in plan)
         all_keys = b''.join(k for o, k in plan)
+        outf = None
+        if cfg.get('exit_in_filter'):
+            # the child's exit becomes visible between the read of its last words and their delivery to the user
+            total = len(all_out)
+            seen = {'n': 0}
+
+            def outf(data):
+                seen['n'] += len(data)
+                if seen['n'] >= total and not state['exited']:
+                    state['to_child'] += drain(w.slave, 0)
+                    w.peer('PeerExit', [0])
+                    state['exited'] = state['ended'] = True
+                return data
 
         def sweep():
             state['to_user'] += drain(umaster, 0)
@@ -307,7 +327,7 @@ def payload_case(args):
         signal.alarm(20)
         raised = ''
         try:
-            child.interact(escape_character=(chr(29) if cfg['end'] == 'escape' else None))
+            child.interact(escape_character=(chr(29) if cfg['end'] == 'escape' else None), output_filter=outf)
         except Blocked:
             raised = 'blocked'
         except Exception as e:
@@ -402,6 +422,21 @@ def payload_cases(rng, quick):
     # with a log file: text the encoding can represent (what an undecodable byte does to a strict log is C11's business)
     for enc, err in confs:
         cases.append(mk(enc, err, False, True, 'escape', b'', [(text * 3, b'a'), (b'w' * 1000, b'b')]))
+    # the child's last words: its exit becomes visible between interact()'s read and its write / before interact() starts
+    for enc, err in confs[:2]:
+        for poll in (False, True):
+            c = mk(enc, err, poll, False, 'exit', b'', [(b'LASTWORDS|', b'')])
+            c['exit_in_filter'] = True
+            cases.append(c)
+            c = mk(enc, err, poll, False, 'exit', b'', [(b'first|', b'k'), (allb, b''), (b'LASTWORDS|', b'')])
+            c['exit_in_filter'] = True
+            cases.append(c)
+            c = mk(enc, err, poll, False, 'exit', b'TAIL|', [])
+            c['dead_at_entry'] = True
+            cases.append(c)
+            c = mk(enc, err, poll, False, 'escape', b'left over ' * 30, [])
+            c['dead_at_entry'] = True
+            cases.append(c)
     for _ in range(40 if quick else 1500):
         enc, err = rng.choice(confs)
         plan = []
